@@ -68,7 +68,7 @@ class C09(P.Property):
     probe_names = ["scheme_" + s for s in fe.SCHEMES] + ["recreate_before_" + w for w in WORKFLOW[1:]] + [
         "recreate_before_first_search", "recreate_between_searches", "kept_object_whole_workflow", "server_restart_before_first_search",
         "server_restart_between_searches", "recreate_inside_cleanup_window", "absent_keyword", "near_miss_keyword", "nondefault_config",
-        "stall_over_60s", "decoy_service", "decoy_other_config", "idle_connection", "op_failed_under_fault", "server_read_error", "client_object_kept_after_fault", "blocked_by_other_connection", "real_restart_new_interpreter", "separate_hosts", "server_killed_mid_request", "request_while_server_down", "client_built_outside_loop"]
+        "stall_over_60s", "decoy_service", "decoy_other_config", "idle_connection", "op_failed_under_fault", "server_read_error", "client_object_kept_after_fault", "blocked_by_other_connection", "real_restart_new_interpreter", "separate_hosts", "server_killed_mid_request", "request_while_server_down", "client_built_outside_loop", "server_restart_inside_workflow"]
     thorough_probe_names = ["huge_payload"]
 
     def setup(self):
@@ -175,6 +175,7 @@ class C09(P.Property):
         knobs["blocker"] = None
         if knobs["stall"] is None and knobs["read_fault"] is None and knobs["kill_mid"] is None and rng.random() < 0.06:
             knobs["blocker"] = {"search": rng.randrange(len(steps)), "hold": rng.choice([5, 30, 70, 70])}
+        knobs["restart_before_step"] = rng.choice([1, 2, 3, 4, 4]) if rng.random() < 0.15 else None  # server restart before gen_key / encrypt / upload_config / upload_index
         knobs["server_down"] = None
         if knobs["stall"] is None and knobs["read_fault"] is None and knobs["kill_mid"] is None and knobs["blocker"] is None and rng.random() < 0.06:
             # the server is not running when a new client object sends this request; it is started afterwards and the same object tries again
@@ -291,7 +292,14 @@ class C09(P.Property):
         kept_all = True
         # ---- the workflow
         for i, step in enumerate(WORKFLOW):
-            if i > 0 and knobs["recreate"][i - 1]:
+            if i > 0 and knobs.get("restart_before_step") == i:
+                # the server program is restarted between two steps of the workflow (e.g. configuration uploaded, index not yet)
+                kept_all = False
+                await host.drop()
+                await asyncio.sleep(knobs["gaps"][i - 1])
+                await self._restart(run, host, out)
+                probes["server_restart_inside_workflow"] = 1
+            elif i > 0 and knobs["recreate"][i - 1]:
                 kept_all = False
                 await recreate("recreate_before_" + step, knobs["gaps"][i - 1])
             fresh = host.obj is None
@@ -557,7 +565,7 @@ class C09(P.Property):
     def simplifications(self, plan):
         k = plan["knobs"]
         for key, val in (("skew", 1.0), ("bufsize", 8192), ("net", dict(lo=0.01, hi=0.01)), ("stall", None), ("restart_after_upload", False),
-                         ("recreate", [False] * 5), ("gaps", [0] * 5), ("cfg_index", 0), ("decoy", False), ("sse2_spare", 0), ("read_fault", None), ("blocker", None), ("real_restart", False), ("separate_hosts", False), ("kill_mid", None), ("mtime_gran", None), ("reboot_clock", None), ("server_down", None), ("sync_construct", False)):
+                         ("recreate", [False] * 5), ("gaps", [0] * 5), ("cfg_index", 0), ("decoy", False), ("sse2_spare", 0), ("read_fault", None), ("blocker", None), ("real_restart", False), ("separate_hosts", False), ("kill_mid", None), ("mtime_gran", None), ("reboot_clock", None), ("server_down", None), ("sync_construct", False), ("restart_before_step", None)):
             if k.get(key) != val:
                 yield dict(plan, knobs=dict(k, **{key: val}))
         db = k["db"]
